@@ -1,1 +1,143 @@
-"""placeholder"""
+"""C06 - pipelines keep moving and heal themselves: the mechanisms whose absence causes a permanent stall."""
+
+from __future__ import annotations
+
+import ast
+import re
+
+from . import rule
+from .zmq import anchors, Z, ret_const, stmt_list_containing
+from .c01 import sync_region, pm_paths
+from .c04 import recv_loop_paths
+from ..model import Unresolved, walk_scope, parent, enclosing_function, qualname
+from ..paths import U, Path, Evaluator
+from .. import q
+
+
+@rule('C06.R1', 're-request while waiting: every iteration of the wait loop sends a request for the id before the expected one and then polls with a positive bounded timeout')
+def r1(rr, repo):
+    za = anchors(repo)
+    loop, paths = recv_loop_paths(za)
+    rr.paths += len(paths)
+    n = 0
+    for p in paths:
+        if p.facts.get('truthy(got_all)') is not False:
+            continue
+        rq = [e for e in p.events if e.kind == 'call' and e.term in (za.R_req.name, f'<def {za.R_req.name}>')]
+        ro = [e for e in p.events if e.kind == 'call' and e.term in (za.R_once.name, f'<def {za.R_once.name}>')]
+        if p.outcome is not None and p.outcome[0] == 'return':
+            rr.ob('giving up (timeout) still happens only after a request was sent', bool(rq), za.mod, loop, witness=p.pc_text(), key='timeout-after-request')
+            continue
+        n += 1
+        rr.ob('a waiting iteration re-sends the request', len(rq) == 1, za.mod, loop, witness=p.pc_text(), key='rerequest')
+        if rq:
+            rr.ob('the request names the last id the consumer has (expected id - 1), so a restarted publisher can adopt it', rq[0].args and rq[0].args[0].replace(' ', '') in ('min_recv_id-1',), za.mod, rq[0].node, witness=str(rq[0].args), key='request-id')
+        if ro:
+            a = ro[0].args[0] if ro[0].args else ''
+            rr.ob('the poll after a request is bounded by ZMQ_POLL_TIMEOUT', 'ZMQ_POLL_TIMEOUT' in a, za.mod, ro[0].node, witness=a, key='poll-bounded')
+    rr.floor('waiting iterations', n, 1, za.mod, loop)
+    # request() reaches every source
+    fors = [n_ for n_ in walk_scope(za.R_req) if isinstance(n_, ast.For)]
+    ok = len(fors) == 1 and U(fors[0].iter) in ('sendervs', 'senders.values()', 'self.senders.values()') and any(isinstance(c, ast.Call) and U(c.func).endswith('.send_push') for c in ast.walk(fors[0]))
+    sp = [c for c in q.attr_calls(za.R_req, 'send_push')]
+    unguarded = all(not q.guards_of(c, stop=fors[0]) for c in sp) if fors else False
+    rr.ob('request() pushes to every source unconditionally', ok and unguarded, za.mod, za.R_req, key='request-all')
+
+
+@rule('C06.R2', 'poller registration typestate: a source is unregistered only when complete (or, balanced, when another source was chosen) and '
+                'every reset of a complete source restores the registration')
+def r2(rr, repo):
+    za = anchors(repo)
+    unreg = q.attr_calls(za.R_cls, 'unregister')
+    rr.floor('poller.unregister sites', len(unreg), 2, za.mod, za.R_cls)
+    for c in unreg:
+        g = q.guards_of(c, stop=za.R_once)
+        txt = ' && '.join(('' if pol else 'not ') + U(t) for t, pol in g)
+        tgt = U(c.args[0]) if c.args else ''
+        if any(pol and U(t).endswith('.got_all') and U(t)[:-8] == tgt[:-4] for t, pol in g):
+            rr.holds('a source is dropped from polling when its set is complete', za.mod, c, key='unreg-complete')
+        elif any(pol and 'balance' in U(t) for t, pol in g) and any(pol and ' is not ' in U(t) and ' in poller' in U(t) for t, pol in g):
+            rr.holds('balanced: the other sources are dropped from polling once one source delivered a data message', za.mod, c, key='unreg-balanced')
+        else:
+            rr.violated('a source is unregistered from the poller outside the two sanctioned situations (it would never be polled again)', za.mod, c, witness=txt, key=f'unreg-other|{tgt}')
+    # reset loop re-registers completed sources
+    call, lst, _, _ = sync_region(za)
+    ev = za.ev()
+    ps = ev.run(lst, za.start(za.R_once))
+    rr.paths += len(ps)
+    n = 0
+    for p in ps:
+        resets = [e for e in p.events if e.kind == 'call' and e.term.endswith('.new_recv') and '__elem__' in e.term and not e.args]
+        if not resets:
+            continue
+        recv = resets[0].term[:-len('.new_recv')]
+        ga = p.facts.get(f'truthy({recv}.got_all)')
+        regs = [e for e in p.events if e.kind == 'call' and e.term.endswith('.register') and e.args and e.args[0] == f'{recv}.sub']
+        if ga is True:
+            n += 1
+            ok = bool(regs) and p.events.index(regs[0]) < p.events.index(resets[0])
+            rr.ob('resetting a source that was complete (hence unregistered) registers it again first', ok, za.mod, resets[0].node, witness=p.pc_text(), key='rereg')
+        elif ga is None:
+            rr.violated('a source is reset without checking whether it had been unregistered (got_all)', za.mod, resets[0].node, witness=p.pc_text(), key='rereg-untested')
+    rr.floor('paths resetting a completed source', n, 1, za.mod, call)
+    # ZMQReceiver.new_recv rebuilds the poller with all sources; Sender.new_recv registers when given a poller
+    ev = za.ev(unroll_for=1)
+    ps = ev.run(za.R_new_recv.body)
+    ok = False
+    for p in ps:
+        newp = [e for e in p.events if e.kind == 'store' and e.term == 'self.poller' and 'Poller()' in e.args[0]]
+        each = [e for e in p.events if e.kind == 'call' and e.term.endswith('.new_recv') and '__elem__(self.senders.values())' in e.term and any(k == 'poller' for k, _ in e.kwargs)]
+        if newp and each:
+            ok = True
+    rr.ob('after a set is returned a fresh poller is built and every source is re-armed (new_recv(poller=...))', ok, za.mod, za.R_new_recv, key='new-recv-all')
+    ev = za.ev()
+    ps = ev.run(za.RS_new_recv.body)
+    okr = all(any(e.kind == 'call' and e.term.endswith('.register') and e.args and e.args[0] == 'self.sub' for e in p.events)
+              for p in ps if p.facts.get('isnone(poller)') is False)
+    rr.ob("Sender.new_recv registers the source's SUB socket whenever a poller is supplied", okr and any(p.facts.get('isnone(poller)') is False for p in ps), za.mod, za.RS_new_recv, key='sender-new-recv-reg')
+    calls = [c for c in q.attr_calls(za.R_recv, 'new_recv', into_functions=False) if U(c.func) == 'self.new_recv']
+    rets = [n_ for n_ in walk_scope(za.R_recv) if isinstance(n_, ast.Return) and isinstance(n_.value, ast.Tuple)]
+    okc = bool(calls) and bool(rets) and all(any(stmt_list_containing(c)[1] is stmt_list_containing(r)[1] and c.lineno < r.lineno for c in calls) for r in rets)
+    rr.ob('recv() re-arms all sources before returning a set', okc, za.mod, za.R_recv, key='recv-rearm')
+
+
+@rule('C06.R3', 'restart adoption exists in both directions: the publisher adopts the id its consumers ask for; the consumer accepts a newer id; CLOSE resets an ephemeral floor')
+def r3(rr, repo):
+    za = anchors(repo)
+    ff = [e for p in za.paths('poll') for e in p.events if e.kind == 'store' and e.term == 'self.min_send_id']
+    rr.ob('publisher side: a fast-forward store of min_send_id is reachable in poll_recv', bool(ff), za.mod, za.S_poll, key='adopt-pub')
+    paths, _ = pm_paths(za)
+    newer = [p for p in paths if q.order(p, za.r_mid, za.pm_exp) == '>']
+    ok = bool(newer) and all(ret_const(p)[2] is not None for p in newer)
+    rr.ob('consumer side: a newer id than expected is accepted (process_msg does not return None for it)', ok, za.mod, za.R_pm, key='adopt-con')
+    st = [(s, t) for s, t in q.stores_to_attr(za.R_once, 'min_recv_id') if isinstance(s, ast.Assign) and U(s.value) in ('MSG_ID_INITIAL', '0')]
+    okc = False
+    for s, t in st:
+        g = q.guards_of(s, stop=za.R_once)
+        if any(pol and 'MSG_ID_CLOSE' in U(tt) for tt, pol in g):
+            okc = True
+    rr.ob("a CLOSE from the publisher resets that source's own id floor (so a restarted publisher is not ignored by an ephemeral consumer)", okc, za.mod, st[0][0] if st else za.R_once, key='close-reset')
+
+
+@rule('C06.R4', 'dead consumers leave the wait set: both removal sites are reachable from every send() call')
+def r4(rr, repo):
+    za = anchors(repo)
+    kinds = set()
+    for p in za.paths('poll'):
+        for e in p.events:
+            if e.kind == 'del' and e.term.startswith('self.clients['):
+                kinds.add('close' if any(kk.startswith('eq(-3,') and v is True for kk, v in p.pc[:e.pc_len]) else 'timeout')
+    for kind in ('close', 'timeout'):
+        rr.ob(f'a removal of the {kind} kind is reachable in poll_recv', kind in kinds, za.mod, za.S_poll, key=f'removal-{kind}')
+    from .c04 import r5 as c04r5
+    c04r5(rr, repo)
+    body_calls = [c for c in q.name_calls(za.S_send, za.S_poll.name, into_functions=False)]
+    first = [s for s in za.S_send.body if isinstance(s, ast.While) and any(isinstance(c, ast.Call) and U(c.func) == za.S_poll.name for c in ast.walk(s.test))]
+    rr.ob('send() drains pending requests (and thereby scans for dead clients) before it decides anything', bool(first), za.mod, first[0] if first else za.S_send, key='drain-first')
+    rr.ob('send() keeps polling for requests while it waits', len(body_calls) >= 3, za.mod, za.S_send, witness=f'{len(body_calls)} poll_recv call sites', key='poll-while-waiting')
+
+
+@rule('C06.R5', 'handshake re-learning: same mechanism as C03.R5 (a consumer that has not heard the publisher says so; the publisher answers HELLO)')
+def r5(rr, repo):
+    from .c03 import r5 as c03r5
+    c03r5(rr, repo)
